@@ -236,6 +236,12 @@ func judgeHostile(c *Ctx, srv *server, k hostileReq, cpu bool) (needRestart bool
 			r.Count("oversized_body_resets", 1)
 			return false
 		}
+		// likewise a request head beyond the server's 8 KiB read buffer: it is refused (500) and the connection closed
+		// with the rest of the head unread, which can reset the connection before the client has read the refusal
+		if len(k.Path) > 7900 {
+			r.Count("oversized_head_resets", 1)
+			return false
+		}
 		v("incomplete-response", "the request did not receive a complete HTTP response", "status line + headers + Content-Length-consistent body", res.Err.Error())
 		return false
 	}
@@ -708,6 +714,9 @@ func runC19(c *Ctx) {
 	}
 	c19ResourceGrowth(c, srv)
 	if srv = c19HostileHeaders(c, srv); srv == nil {
+		return
+	}
+	if srv = c19WideText(c, srv); srv == nil {
 		return
 	}
 	c19Soak(c, srv, seq, probe)
